@@ -4,6 +4,7 @@ package main
 // PECOFFBinary; after every step the serialised image is projected by independent code.
 
 import (
+	"fmt"
 	"bytes"
 	"crypto"
 	"crypto/rsa"
@@ -19,6 +20,7 @@ var signCertKey = map[string][3]string{"L0": {"k1", "L", "s1"}, "L1": {"k1", "Lx
 	"A": {"k1", "i1", "s1"}, "B": {"k2", "i2", "s2"}, "At": {"k2", "i1", "s1"}, "A3": {"k3072", "multi", "big"}, "A4": {"k4096", "long", "80"},
 	"Ca":   {"k3072", "ca", "7f"}, // issued by a separate CA: issuer differs from subject
 	"Kca": {"k1", "kuca", "s1"}, "Kenc": {"k2", "kuenc", "s2"}, "Kself": {"k3072", "selfca", "7f"}, // key usages: a CA certificate used directly, keyEncipherment only, openssl's self-signed CA:TRUE default
+	"Z2040": {"k2040", "i1", "s1"}, // a modulus that is not a whole number of 16-bit words (255 octets)
 	"S384": {"k1", "sig384", "s1"}, "S512": {"k2", "sig512", "s2"}} // certificates that are themselves signed with SHA-384 / SHA-512
 
 func signImageLayout(id string) peLayout {
@@ -109,7 +111,7 @@ func projectSigned(out, orig []byte, img *peImage, before []byte) M {
 		if pb, err := projectP7(sig); err == nil && len(pb.Signers) == 1 && pb.HasContent {
 			e["digest_is_output_digest"] = bytes.Equal(spcDigestOf(pb.ContentValue), specDigest) && pb.ContentType.Equal(oidSpcIndirect)
 			s := &pb.Signers[0]
-			for _, k := range []string{"k1", "k2", "k3", "k3072", "k4096"} {
+			for _, k := range []string{"k1", "k2", "k3", "k3072", "k4096", "k2040"} {
 				var pub *rsa.PublicKey = &testKey(k).PublicKey
 				if s.HasAttrs && rsaOK(pub, setOf(s.AttrsRaw), s.Sig) {
 					e["madeby"] = k
@@ -150,7 +152,40 @@ func runPeSign(sc M) {
 		return
 	}
 	before := p.Hash(crypto.SHA256)
-	emit(M{"sc": id, "op": "reset", "presigned": presigned, "origlen": len(orig), "img": imgID, "out": projectSigned(p.Bytes(), orig, img, before)})
+	resetOut := projectSigned(p.Bytes(), orig, img, before)
+	searched := false
+	if ops := list(sc, "ops"); sc["lz"] == true && imgID != "s1" && len(ops) > 0 && str(ops[0].(M), "op") == "sign" {
+		// the RSA signature value: one in 256 begins with a zero octet.  The image content is varied (same layout) until the first
+		// signing of the history produces such a value (or one of another length than the modulus); the history goes on with that object.
+		ck := signCertKey[str(ops[0].(M), "c")]
+		want := (testKey(ck[0]).N.BitLen() + 7) / 8
+		for k := 1; k <= 8000 && !searched; k++ {
+			im2 := buildPE(l, fmt.Sprintf("c03:%s:%d", imgID, k))
+			p2, err := authenticode.Parse(bytes.NewReader(im2.b))
+			if err != nil {
+				break
+			}
+			b2 := p2.Hash(crypto.SHA256)
+			r2 := projectSigned(p2.Bytes(), im2.b, im2, b2)
+			if _, err := p2.Sign(testKey(ck[0]), testCert(ck[0], ck[1], ck[2])); err != nil {
+				break
+			}
+			out := p2.Bytes()
+			va := int(binary.LittleEndian.Uint32(out[im2.dd4:]))
+			if va+8 > len(out) {
+				break
+			}
+			dw := int(binary.LittleEndian.Uint32(out[va:]))
+			if dw < 8 || va+dw > len(out) {
+				break
+			}
+			if pb, perr := projectP7(out[va+8 : va+dw]); perr == nil && len(pb.Signers) == 1 && len(pb.Signers[0].Sig) > 0 &&
+				(pb.Signers[0].Sig[0] == 0 || len(pb.Signers[0].Sig) != want) {
+				img, orig, p, before, resetOut, searched = im2, im2.b, p2, b2, r2, true
+			}
+		}
+	}
+	emit(M{"sc": id, "op": "reset", "presigned": presigned, "origlen": len(orig), "img": imgID, "out": resetOut})
 	for i, o := range list(sc, "ops") {
 		op := o.(M)
 		name, c := str(op, "op"), str(op, "c")
@@ -163,6 +198,9 @@ func runPeSign(sc M) {
 		o2, err := guard(func() error {
 			switch name {
 			case "sign":
+				if searched && i == 0 {
+					return nil // this signing was done by the search above
+				}
 				var sg crypto.Signer = testKey(ck[0])
 				if i%3 == 2 {
 					// overlapped: while this image waits in its signer, another image object (other bytes, other certificate) is parsed,
